@@ -1066,6 +1066,8 @@ def m_len(I, args, fn, expr):
     l = strip(args[0])
     if isinstance(l, RList):
         return len(l.items)
+    if isinstance(l, (bytes, bytearray)):
+        return len(l)
     if isinstance(l, RIter) and getattr(l, "len_fn", None) is not None:
         return l.len_fn()
     return Sym("len(%s)" % _nm(l), expr["ty"] if expr else None)
@@ -1076,6 +1078,8 @@ def m_is_empty(I, args, fn, expr):
     l = strip(args[0])
     if isinstance(l, RList):
         return len(l.items) == 0
+    if isinstance(l, (bytes, bytearray)):
+        return len(l) == 0
     return Sym("is_empty(%s)" % _nm(l), expr["ty"] if expr else None)
 
 
